@@ -382,7 +382,7 @@ func TestVerifC03LookupHost(t *testing.T) {
 // special shapes the small alphabets of c03-select cannot hold: IPv6 literal hosts and long pattern lists
 func TestVerifC03Special(t *testing.T) {
 	L := ev.Begin("C03", "c03-special", "exploration",
-		"(a) IPv6 literal route hosts ([::1], [::1]:8080, [2001:db8::1]; glob matching disabled, since brackets are a glob class) x request hosts with no port, the scheme's default port, the other scheme's default port and another port, plain and TLS; expected = the route whose host equals the request host once the default port is removed. (b) 14 wildcard host patterns of growing suffix length that all match one request host (more than a small-slice sort handles specially), in 3 insertion orders, with and without the exact host: expected = the exact host if present, else the longest suffix. non-trivial = every lookup")
+		"(a) IPv6 literal route hosts ([::1], [::1]:8080, [2001:db8::1]; glob matching disabled, since brackets are a glob class) x request hosts with no port, the scheme's default port, the other scheme's default port and another port, plain and TLS; expected = the route whose host equals the request host once the default port is removed. (b) 15 wildcard host patterns of growing suffix length that all match one request host (the longest is the host itself behind a wildcard that stands for nothing) (more than a small-slice sort handles specially), in 3 insertion orders, with and without the exact host: expected = the exact host if present, else the longest suffix. non-trivial = every lookup")
 	gc := NewGlobCache(100)
 	// (a)
 	v6 := []string{"[::1]", "[::1]:8080", "[2001:db8::1]"}
@@ -432,11 +432,12 @@ func TestVerifC03Special(t *testing.T) {
 		pats = append(pats, "*"+suffix)
 	}
 	full := "b" + suffix // matched by every pattern
+	pats = append(pats, "*"+full) // and by one whose wildcard stands for nothing: as a reversed string it sorts in front of the exact host
 	orders := [][]int{nil, nil, nil}
 	for i := range pats {
 		orders[0] = append(orders[0], i)
 		orders[1] = append(orders[1], len(pats)-1-i)
-		orders[2] = append(orders[2], (i*5)%len(pats))
+		orders[2] = append(orders[2], (i*7)%len(pats)) // 7 and 15 are coprime: a permutation
 	}
 	for oi, ord := range orders {
 		for _, withExact := range []bool{false, true} {
@@ -453,6 +454,9 @@ func TestVerifC03Special(t *testing.T) {
 			}
 			for _, rq := range []string{full, "x." + full[2:], strings.ToUpper(full)} {
 				want := fmt.Sprintf("p%d", len(pats)-1)
+				if strings.ToLower(rq) != full {
+					want = fmt.Sprintf("p%d", len(pats)-2) // x.c.d...: the pattern *b.c.d... does not match, the longest of the others does
+				}
 				if withExact && strings.ToLower(rq) == full {
 					want = "exact"
 				}
